@@ -43,6 +43,12 @@ StepIv(e) ==
   /\ Check(e.has_start = (iv.start # TMin) /\ e.has_end = (iv.end # TMax), "has_start_has_end")
   /\ Check(\A f \in DOMAIN e.flags : e.flags[f], "probe_inside_interval_answers_that_interval_and_wall_offset")
 
+\* the zone asked again after the walk, in another order: same partition, whatever was asked before
+StepRequery(e) ==
+  /\ UNCHANGED <<zid, prev, hasPrev, segFrom, offs>>
+  /\ Check(Le3(e.start, e.at) /\ Lt3(e.at, e.end), "returned_interval_contains_the_instant_asked_for")
+  /\ Check(e.same_as_walk /\ e.offset_agrees, "same_interval_whatever_was_asked_before")
+StepIvExc(e) == UNCHANGED <<zid, prev, hasPrev, segFrom, offs>> /\ Rej("every_instant_lies_in_exactly_one_interval")
 StepEndz(e) == /\ UNCHANGED <<zid, prev, hasPrev, segFrom, offs>>
                /\ Check(hasPrev /\ prev.end = TMax, "last_interval_extends_to_the_end_of_time")
 
@@ -107,6 +113,6 @@ StepSod(e) ==
 Next == /\ l <= Len(Events) /\ l' = l + 1
         /\ LET e == Events[l] IN
            CASE e.op = "zone" -> StepZone(e) [] e.op = "seg" -> StepSeg(e) [] e.op = "iv" -> StepIv(e)
-             [] e.op = "endz" -> StepEndz(e) [] e.op = "map" -> StepMap(e) [] e.op = "sod" -> StepSod(e)
+             [] e.op = "endz" -> StepEndz(e) [] e.op = "requery" -> StepRequery(e) [] e.op = "iv_exc" -> StepIvExc(e) [] e.op = "map" -> StepMap(e) [] e.op = "sod" -> StepSod(e)
 Spec == Init /\ [][Next]_zvars
 =============================================================================
